@@ -270,7 +270,7 @@ def run(rep):
     rep.add_tlc("C19.Enum+Laws", res)
     allc, fam, nextra, nrand = prepare(res.records, rep.tier, rep.seed)
     for need, least in (("tokc", 1000), ("tokf", 400), ("mut", 3000), ("val", 3000), ("sv", 800), ("st", 1000),
-                        ("nt", 2000), ("nv", 500), ("hp", 800), ("hs", 400)):
+                        ("nt", 2000), ("nv", 500), ("hp", 800), ("hs", 400), ("su", 2500), ("sx", 1200)):
         if fam.get(need, 0) < least and not only:
             raise Machinery("enumeration produced only %d cases of family %s" % (fam.get(need, 0), need))
     names = {"tokc": "token-class sequences (all short ones, then every one-token extension of a viable prefix)",
@@ -283,6 +283,9 @@ def run(rep):
              "hp": "histories: parse(t1), the script edits the result (append / overwrite / truncate / new key / delete, root and nested), "
                    "parse(t2) with t2 equal / another spelling / containing t1; scalars and rejected texts as t1",
              "hs": "histories: stringify(v), the script edits v (same edits), stringify(v) again",
+             "su": "strings by concrete unit as stringify operands (every ordered pair of 40 code units; every unit at the end / start / "
+                   "inside / doubled at the end of an identifier-like word; root, property name and value)",
+             "sx": "the same strings as string tokens of a text (raw where JSON allows it, escaped otherwise; name and value of a property)",
              "nv": "the numbers denoted by the number tokens as stringify operands (root, array element, property value)"}
     for f, n in sorted(fam.items()):
         rep.spaces.append({"space": names.get(f, f) + " (TLC-enumerated)", "cases": n, "complete": True})
